@@ -834,6 +834,9 @@ func ruleJSONRenderings(c *Ctx, rule string) {
 			})
 			descs = append(descs, found)
 			switch {
+			case found == "" && callsOut(fn):
+				// rendered somewhere this rule does not follow (function values, a chain of helpers): nothing to point at
+				ob.Und("no encoding/json call found in the method or in the helpers it hands its receiver to directly; the rendering goes through other calls")
 			case found == "":
 				ob.Bad("no encoding/json call found")
 			case strings.HasPrefix(found, "other:"):
@@ -1096,4 +1099,28 @@ func stripConv(v ssa.Value) ssa.Value {
 		}
 		return v
 	}
+}
+
+// callsOut: the function calls something other than library code it could be followed into (a repository function, or a
+// function value): its result may be produced there.
+func callsOut(fn *ssa.Function) bool {
+	out := false
+	instrsOf(fn, func(in ssa.Instruction) {
+		call, ok := in.(ssa.CallInstruction)
+		if !ok {
+			return
+		}
+		cc := call.Common()
+		if cc.IsInvoke() {
+			return
+		}
+		if sc := cc.StaticCallee(); sc == nil {
+			if _, isBuiltin := cc.Value.(*ssa.Builtin); !isBuiltin {
+				out = true
+			}
+		} else if sc.Pkg != nil && strings.HasPrefix(sc.Pkg.Pkg.Path(), modRoot) {
+			out = true
+		}
+	})
+	return out
 }
